@@ -908,11 +908,13 @@ func runModelHistory(id int, seed int64, mix string, n int, script []Cmd) ModelH
 	defer d.close()
 	g := &mgen{rng: rand.New(rand.NewSource(seed)), st: d.store, mix: mix}
 	var snaps [][]byte
-	var dumps []*fullDump
+	var dumps []*storeDump
 	var rawResults []string
-	var stale []bool
+	var wits []*witness
+	renamed := false
+	sigs := instanceSigs(d.store())
 	for i := 0; i <= n; i++ {
-		stale = append(stale, staleChecks(d.store()))
+		wits = append(wits, computeWitness(d.store(), renamed))
 		b, err := d.snapshot()
 		if err != nil {
 			h.Failures = append(h.Failures, Failure{Cut: i, Stage: "snapshot", Signature: map[string]any{"kind": "snapshot-failed"}, Detail: err.Error()})
@@ -932,6 +934,9 @@ func runModelHistory(id int, seed int64, mix string, n int, script []Cmd) ModelH
 		h.Cmds = append(h.Cmds, c)
 		h.Results = append(h.Results, modelResult(out))
 		rawResults = append(rawResults, canonResult(out))
+		after := instanceSigs(d.store())
+		renamed = renamed || reRegistered(sigs, after)
+		sigs = after
 	}
 	h.Final = modelDump(d.store())
 	seen := map[string]bool{}
@@ -966,15 +971,11 @@ func runModelHistory(id int, seed int64, mix string, n int, script []Cmd) ModelH
 			m.close()
 			continue
 		}
-		relax := false
-		for i := k; i < len(stale); i++ {
-			relax = relax || stale[i]
-		}
 		mc.Restored = modelDump(m.store())
 		mc.Reads[0], _, _ = m.store().KVSList(nil, "", nil)
 		mc.Reads[1], _, _ = m.store().SessionList(nil, nil)
 		mc.Reads[2], _, _ = m.store().PreparedQueryList(nil)
-		addF(compareDumps(k, "dump", dumps[k], dumpStore(m.store()), relax))
+		addF(compareDumps(k, "dump", dumps[k], dumpStore(m.store()), wits[k], false))
 		for i := k; i < n; i++ {
 			res := canonResult(m.apply(h.Cmds[i].Idx, mEncode(&h.Cmds[i])))
 			if res != rawResults[i] {
@@ -985,7 +986,7 @@ func runModelHistory(id int, seed int64, mix string, n int, script []Cmd) ModelH
 		}
 		fd := modelDump(m.store())
 		mc.Final = &fd
-		addF(compareDumps(k, "suffix-dump", dumps[n], dumpStore(m.store()), relax))
+		addF(compareDumps(k, "suffix-dump", dumps[n], dumpStore(m.store()), wits[k], true))
 		m.close()
 		h.Cuts = append(h.Cuts, mc)
 	}
